@@ -52,8 +52,27 @@ optimize_lvalue_list (parse_node_t * expr)
 #define OPTIMIZER_IN_COND	 2	/* switch or if or ?: */
 static int optimizer_state = 0;
 
+static parse_node_t *optimize_1 (parse_node_t *);
+
+/* optimize() and i_generate_node() recurse once per level of the parse tree, and a chain
+ * like a + b + c + ... is one level per operand: a source file with some ten thousand
+ * terms in one expression ran the compiler out of C stack.  Trees deeper than this are
+ * left alone here and refused by the code generator. */
+static int optimize_depth = 0;
+
 static parse_node_t *
 optimize (parse_node_t * expr)
+{
+  if (optimize_depth >= MAX_PARSE_TREE_DEPTH)
+    return expr;
+  optimize_depth++;
+  expr = optimize_1 (expr);
+  optimize_depth--;
+  return expr;
+}
+
+static parse_node_t *
+optimize_1 (parse_node_t * expr)
 {
   if (!expr)
     return 0;
@@ -529,6 +548,7 @@ short generate_function (compiler_function_t* f, parse_node_t * node, int num) {
     {
       optimizer_start_function (num);
       optimizer_state = 0;
+      optimize_depth = 0;   /* an error may have left the optimizer from the middle of a tree */
       node = optimize (node);
       optimizer_end_function ();
     }
